@@ -27,7 +27,7 @@ def _avg(uops):
     return p
 
 
-def _x86_case(role, shape, row_present, typed_row, vec, nums, mult_present):
+def _x86_case(role, shape, row_present, typed_row, vec, nums, mult_present, suffix=False):
     (c_reg, tp_reg, lat_reg, c_ld, c_ldt, c_lddef, c_st, c_stt, c_stdef, L, m_ld, m_st) = nums
     rt = "xmm" if vec else "gpr"
     other = "gpr" if vec else "xmm"
@@ -79,7 +79,9 @@ def _x86_case(role, shape, row_present, typed_row, vec, nums, mult_present):
         ops = [r, mem]
         add_entry(isa_model, "op", [RegisterOperand(name=rt, source=True), MemoryOperand(base=W, offset=W, index=W, scale=W, source=True, destination=True)])
     sem = mk_sem(model, isa_model)
-    f = InstructionForm(mnemonic="op", operands=ops, line="op", line_number=1)
+    # with suffix: the instruction is written with an AT&T size suffix while the register form
+    # (and the ISA entry) are stored under the suffix-less name
+    f = InstructionForm(mnemonic="opq" if suffix else "op", operands=ops, line="op", line_number=1)
     f.flags = []
     # a second, unknown instruction must not influence / be influenced
     g = InstructionForm(mnemonic="nosuch", operands=[RegisterOperand(name="rcx"), MemoryOperand(base=RegisterOperand(name="rdx"))], line="nosuch", line_number=2)
@@ -111,7 +113,7 @@ def _x86_case(role, shape, row_present, typed_row, vec, nums, mult_present):
     return ok
 
 
-def x86_compose(role: int, shape: int, row_present: bool, typed_row: bool, vec: bool, mult_present: bool,
+def x86_compose(role: int, shape: int, row_present: bool, typed_row: bool, vec: bool, mult_present: bool, suffix: bool,
                 c_reg: int, tp_reg: int, lat_reg: int, c_sel_ld: int, c_sel_st: int, L: int, m_ld: int) -> bool:
     """
     pre: 0 <= role <= 2 and 0 <= shape <= 2
@@ -142,12 +144,12 @@ def x86_compose(role: int, shape: int, row_present: bool, typed_row: bool, vec: 
     else:
         c_lddef, c_stdef = c_sel_ld, c_sel_st
         c_ld, c_st, c_ldt, c_stt = 11.0, 13.0, 17.0, 19.0
-    ok = _x86_case(ro, sh, rp, tr, ve, (c_reg, tp_reg, lat_reg, c_ld, c_ldt, c_lddef, c_st, c_stt, c_stdef, L, m_ld, m_st), mp)
-    return verdict(ok, nontrivial=True, sample=lambda: {"role": ["load", "store", "rmw"][ro], "shape": sh, "row_present": rp, "typed_row": tr, "vec": ve,
+    ok = _x86_case(ro, sh, rp, tr, ve, (c_reg, tp_reg, lat_reg, c_ld, c_ldt, c_lddef, c_st, c_stt, c_stdef, L, m_ld, m_st), mp, True if suffix else False)
+    return verdict(ok, nontrivial=True, sample=lambda: {"suffix": suffix, "role": ["load", "store", "rmw"][ro], "shape": sh, "row_present": rp, "typed_row": tr, "vec": ve,
                                                        "mult": mp, "c_reg": c_reg, "tp_reg": tp_reg, "lat_reg": lat_reg, "c_ld": c_ld, "L": L})
 
 
-def _a64_case(mode, is_store, row_present, nums):
+def _a64_case(mode, is_store, row_present, nums, suffix=False):
     """AArch64: ldr/str with plain, pre- or post-indexed addressing; register form 'op x, x'."""
     (c_reg, tp_reg, lat_reg, c_ld, c_lddef, c_st, c_stdef, L) = nums
     model = mk_model("aarch64", ports=list(PORTS))
@@ -172,7 +174,7 @@ def _a64_case(mode, is_store, row_present, nums):
     else:
         ops = [r, mem]   # default roles: first operand destination, memory source
     sem = mk_sem(model, isa_model)
-    f = InstructionForm(mnemonic="op", operands=ops, line="op", line_number=1)
+    f = InstructionForm(mnemonic="op.s" if suffix else "op", operands=ops, line="op", line_number=1)
     f.flags = []
     sem.add_semantics([f])
     ld_u = ([[c_ld, "23"]] if row_present else [[c_lddef, "23"]]) if not is_store else []
@@ -187,7 +189,7 @@ def _a64_case(mode, is_store, row_present, nums):
     return ok
 
 
-def a64_compose(mode: int, is_store: bool, row_present: bool, c_reg: int, tp_reg: int, lat_reg: int,
+def a64_compose(mode: int, is_store: bool, row_present: bool, suffix: bool, c_reg: int, tp_reg: int, lat_reg: int,
                 c_sel: int, L: int) -> bool:
     """
     pre: 0 <= mode <= 2
@@ -198,12 +200,12 @@ def a64_compose(mode: int, is_store: bool, row_present: bool, c_reg: int, tp_reg
     if skip(locals()):
         return True
     mo = pick(mode, 3)
-    ok = _a64_case(mo, True if is_store else False, True if row_present else False, (c_reg, tp_reg, lat_reg, c_ld, c_lddef, c_st, c_stdef, L))
-    return verdict(ok, nontrivial=True, sample=lambda: {"mode": ["offset", "pre", "post"][mo], "store": is_store, "row_present": row_present, "c_reg": c_reg, "L": L})
+    ok = _a64_case(mo, True if is_store else False, True if row_present else False, (c_reg, tp_reg, lat_reg, c_ld, c_lddef, c_st, c_stdef, L), True if suffix else False)
+    return verdict(ok, nontrivial=True, sample=lambda: {"suffix": suffix, "mode": ["offset", "pre", "post"][mo], "store": is_store, "row_present": row_present, "c_reg": c_reg, "L": L})
 
 
 CELLS = {
-    "x86_compose": {"fn": x86_compose, "bound": "role {load, store, read-modify-write} x addressing shape {(b), d(b), d(b,i,4)} x {matching row present, only default} x {register-type-specific row present} x {gpr, xmm} x {multipliers present}; register-form cycles/throughput/latency, the selected load and store rows' cycles, load latency and load multiplier symbolic ints (pressures become exact rationals), all other rows distinct concrete markers",
+    "x86_compose": {"fn": x86_compose, "bound": "role {load, store, read-modify-write} x addressing shape {(b), d(b), d(b,i,4)} x {matching row present, only default} x {register-type-specific row present} x {gpr, xmm} x {multipliers present} x {mnemonic with/without size suffix}; register-form cycles/throughput/latency, the selected load and store rows' cycles, load latency and load multiplier symbolic ints (pressures become exact rationals), all other rows distinct concrete markers",
                     "budget": {"quick": 170, "thorough": 900}, "shards": 9},
     "a64_compose": {"fn": a64_compose, "bound": "AArch64 load / store with offset, pre- and post-indexed addressing x row present; register-form numbers, selected row cycles and load latency symbolic ints (pressures become exact rationals)", "budget": {"quick": 170, "thorough": 600}},
 }
